@@ -1620,7 +1620,7 @@ def search_fixpoint(ctx: Ctx) -> SearchResult:
 	res = SearchResult('files_after(history + [run]) == files_after(history + [run -f]): both runs on clones of one project state (sources, outputs, caches)')
 	hist: Counter[str] = Counter()
 	seen: set[str] = set()
-	budget = [ctx.scale(80, 1300)]
+	budget = [ctx.scale(80, 1100)]
 	with ctx.timed('search_fixpoint'):
 		dl = new_deadline('search fixpoint', ctx.scale(300, 1200))
 
